@@ -1064,6 +1064,22 @@ def r_abort(ctx):
             good = bool(proof_w) and all(isinstance(v, tuple) and v[0] == 'aggr' and v[2] == 'Some' and M.contains(v[3][0][1], lambda x: M.is_call(x, 'process_one_node')) for (pt, d, v) in proof_w)
         ctx.check(good, 'R05.2', tag + '/abort-sets-proof', asb, asb.loc(0), 'abort_search records abort_proof = Some(reason) on every path',
                   'abort_search does not set abort_proof := Some(reason) on every path')
+        if tag == 'seq':
+            # the bound left at a cut-off is the ub of the node popped last (R19.1); a node popped although it is stale (ub <= best_lb) is
+            # dropped at once, WITHOUT polling the cutoff — an Err that can leave process_one_node before the staleness test aborts the
+            # search with best_ub = that stale ub < best_lb. Accepted: every Err exit lies behind an edge asserting node.ub > best_lb, or the
+            # abort handler clamps the bound with the incumbent (max(.., best_lb)).
+            pb_ = ctx.body(adt, 'process_one_node')
+            errs_ = [(bb_, i_) for (bb_, i_, s_) in aggr_assigns(pb_, 'Result', 'Err') if s_['place']['l'] == 0]
+            errs_ += [pb_.term_point(bb_) for (bb_, t_) in pb_.calls_to('FromResidual::from_residual', 'from_residual') if not t_['dest']['p'] and t_['dest']['l'] == 0]
+            lbp_ = is_lb(F)
+            nub_ = lambda t: is_subproblem_field(t, 'ub') and M.is_param(t[1])
+            okg_, cut_, _ = M.guarded(pb_, errs_, lambda atoms, lit: any(M.cmp_matches(a_, nub_, lbp_, '>') for a_ in atoms)) if errs_ else (False, [], [])
+            clamp_ = any(solver_field(d_, 'best_ub') and M.contains(v_, lambda x: isinstance(x, tuple) and x and x[0] == 'max' and any(lbp_(y) for y in x[1]))
+                         for (pt_, d_, v_, s_) in writes(asb))
+            ctx.check(bool(errs_) and (okg_ or clamp_), 'R05.2', 'seq/no-abort-on-a-stale-node', pb_, pb_.loc(*errs_[0]) if errs_ else pb_.loc(0),
+                      'process_one_node can fail (cut-off) only behind the staleness test node.ub > best_lb: the bound left at an abort is never below the incumbent',
+                      'process_one_node can return Err (cut-off) for a node that was popped although its ub <= best_lb (a poll in front of the staleness test): the abort leaves best_ub = that stale ub, below the lower bound')
         # the proof of an abort is withdrawn (abort_proof := None outside the constructor: a solver that can be asked to maximize again)
         # only together with a FULL reset of what the aborted search left behind: the abort discards the open sub-problems, so every
         # "explored" mark still in the cache speaks about a search whose remainder was thrown away — a later run that trusts those marks
